@@ -58,7 +58,7 @@ theorem quarters_castTo_sameKind {d : DType} {x : Val} (hx : x.ok) (h : sameKind
 /-- ops that may change the dtype of layer `l`: a `modify_cells` on it whose result is of another type -/
 def Op.mayRetype (l : Nat) : Op → Prop
   | .modifyT l' _ _ _ => l' = l
-  | .modifyU l' _ _ _ => l' = l
+  | .modifyU l' _ _ _ _ => l' = l
   | _ => False
 
 theorem dtypeOf_sameShape {s s' : State} (e : SameShape s s') (l : Nat) : s'.dtypeOf l = s.dtypeOf l := by
@@ -123,11 +123,13 @@ theorem dtype_step {s : State} (hw : WF s) {l : Nat} (hl : l < s.nLayers) (op : 
   | cellGet2 l' c => exact Or.inl rfl
   | setCells l' w cond =>
     cases w with
-    | raw v => exact Or.inl (dtypeOf_sameShape (sameShape_setCells ..) l)
-    | py x => exact Or.inl (dtypeOf_sameShape (sameShape_setCellsV ..) l)
+    | raw v => exact Or.inl (vecGuard_fst (P := fun t => t.dtypeOf l = s.dtypeOf l) _ _ _ _ (dtypeOf_sameShape (sameShape_setCells ..) l) rfl)
+    | py x => exact Or.inl (vecGuard_fst (P := fun t => t.dtypeOf l = s.dtypeOf l) _ _ _ _ (dtypeOf_sameShape (sameShape_setCellsV ..) l) rfl)
   | setFrom l' hd cond => exact Or.inl (dtypeOf_sameShape (sameShape_setFrom ..) l)
-  | modifyCells l' f cond =>
-    left; simp only [step]; unfold modifyCells
+  | modifyCells l' vec f cond =>
+    left; simp only [step]
+    refine vecGuard_fst (P := fun t => t.dtypeOf l = s.dtypeOf l) _ _ _ _ ?_ rfl
+    unfold modifyCells
     split
     · rfl
     · next L hL =>
@@ -140,11 +142,15 @@ theorem dtype_step {s : State} (hw : WF s) {l : Nat} (hl : l < s.nLayers) (op : 
           have h2 : (s.layers l).data ≠ s.next := by omega
           simp [State.dtypeOf, upd, h1, h2]
   | modifyT l' f cond rd =>
+    simp only [step]
+    refine vecGuard_fst (P := fun t => t.dtypeOf l = s.dtypeOf l ∨ (l' = l ∧ ∃ rd, t.dtypeOf l = (s.dtypeOf l).join rd)) _ _ _ _ ?_ (Or.inl rfl)
     rcases dtype_modifyCellsT hw hl l' f cond rd with h | ⟨h1, h2⟩
     · exact Or.inl h
     · exact Or.inr ⟨h1, rd, h2⟩
-  | modifyU l' op x cond =>
-    simp only [step]; unfold modifyU
+  | modifyU l' vec op x cond =>
+    simp only [step]
+    refine vecGuard_fst (P := fun t => t.dtypeOf l = s.dtypeOf l ∨ (l' = l ∧ ∃ rd, t.dtypeOf l = (s.dtypeOf l).join rd)) _ _ _ _ ?_ (Or.inl rfl)
+    unfold modifyU
     split
     · exact Or.inl rfl
     · split
@@ -165,6 +171,7 @@ theorem dtype_step {s : State} (hw : WF s) {l : Nat} (hl : l < s.nLayers) (op : 
         · rfl
         · exact dtypeOf_alloc hw hl _ _ _ _ rfl rfl
   | grab hd l' => left; simp only [step]; unfold grab; split <;> rfl
+  | grabMask hd => left; simp only [step]; unfold grabMask; split <;> rfl
   | hget hd c => exact Or.inl rfl
   | hset hd c v => exact Or.inl (dtypeOf_sameShape (sameShape_hset ..) l)
   | hdump hd => exact Or.inl rfl
